@@ -21,6 +21,7 @@ func init() {
 		ruleW2(c, "C19.M5")
 		ruleM6(c, "C19.M6")
 		ruleM7(c, "C19.M7")
+		ruleV3(c, "C19.M8")
 	}
 }
 
